@@ -535,9 +535,22 @@ class _ExtendedTypeFetcher(Thread):
 
         self.request_queue = Queue()
         self._cf.add_port_callback(CRTPPort.PARAM, self._new_packet_cb)
+        self._cf.disconnected.add_callback(self._disconnected)
         self._should_close = False
         self._req_param = -1
         self._count = -1
+
+    def _disconnected(self, link_uri):
+        """The link went down before all extended types were fetched: give up,
+        otherwise the thread waits for ever for the missing reply and the
+        stale callback interferes with the next connection"""
+        self._cf.remove_port_callback(CRTPPort.PARAM, self._new_packet_cb)
+        try:
+            self._cf.disconnected.remove_callback(self._disconnected)
+        except ValueError:
+            pass
+        self._should_close = True
+        self._close()
 
     def _new_packet_cb(self, pk):
         """Callback for newly arrived packets"""
